@@ -21,7 +21,10 @@ from pathlib import Path
 VERIF = Path(__file__).resolve().parent.parent
 REPO = Path(os.environ.get("JMC_REPO", "/repo"))
 COQ = VERIF / "coq"
-GEN = COQ / "Gen"
+TAG = os.environ.get("VERIF_RUN_TAG", "")          # lets several runs (e.g. against seeded worktrees) coexist
+GEN = COQ / "Gen" / TAG if TAG else COQ / "Gen"
+EVID = Path(os.environ.get("VERIF_EVIDENCE_DIR", str(VERIF / "evidence")))
+REPLAYS = Path(os.environ.get("VERIF_REPLAY_DIR", str(VERIF / "replays")))
 PY = "/venv/bin/python"
 NCPU = int(os.environ.get("VERIF_JOBS", "16"))
 SEED = int(os.environ.get("VERIF_SEED", "0") or 0)
@@ -335,13 +338,16 @@ def known_for(prop: str) -> list[dict]:
 
 
 def write_replay(prop: str, obj: dict) -> str:
-    d = VERIF / "replays" / prop
+    d = REPLAYS / prop
     d.mkdir(parents=True, exist_ok=True)
     blob = json.dumps(obj, indent=1, sort_keys=True, default=str)
     h = hashlib.sha1(blob.encode()).hexdigest()[:12]
     p = d / f"{h}.json"
     p.write_text(blob)
-    return str(p.relative_to(VERIF))
+    try:
+        return str(p.relative_to(VERIF))
+    except ValueError:
+        return str(p)
 
 
 class Check:
@@ -398,8 +404,8 @@ class Check:
             "coverage": self.cov, "assumptions": self.assumptions,
             "wall_s": round(time.time() - self.t0, 2), "violations": len(self.violations),
         }
-        (VERIF / "evidence").mkdir(exist_ok=True)
-        (VERIF / "evidence" / f"{self.prop}.json").write_text(json.dumps(ev, indent=1, default=str))
+        EVID.mkdir(parents=True, exist_ok=True)
+        (EVID / f"{self.prop}.json").write_text(json.dumps(ev, indent=1, default=str))
         if self.violations:
             return 1
         print(f"OK property={self.prop} tier={self.tier} wall={ev['wall_s']}s", flush=True)
